@@ -712,7 +712,11 @@ R_<TG_, TA_>::load(ReadStream& stream) noexcept {
 	TransitionSets emptyTransitions;
 	PlanControl control{_core, emptyTransitions};
 
+	const CompoForks loadedResumable = _core.registry.compoResumable;
+
 	_apex.deepChangeToRequested(control);
+
+	_core.registry.compoResumable = loadedResumable;
 
 	HFSM2_IF_STRUCTURE_REPORT(udpateActivity());
 }
